@@ -76,6 +76,17 @@ def load_exec(task):
         return _enter0(self)
     _U.LineIterator.__enter__ = _enter
     stack_len = []
+    # a cursor that reads ahead (takes the whole file in at once) is as good as one that reads line by line; the law is only
+    # meaningful for the latter: when the cursor hands out its first line, the file has handed out exactly one
+    first_nread = []
+    _next0 = _U.LineIterator.__next__
+
+    def _next(self):
+        line = _next0(self)
+        if not first_nread:
+            first_nread.append(tr.nread)
+        return line
+    _U.LineIterator.__next__ = _next
     valid_flags = []
     signal.signal(signal.SIGALRM, _alarm)
     signal.signal(signal.SIGPROF, _alarm)
@@ -112,7 +123,7 @@ def load_exec(task):
                     namesfile = path in str(exc)
                     ln = getattr(exc, "lineno", None)
                     lineno = [] if ln is None else [int(ln)]
-                    if lits and ln:
+                    if lits and ln and first_nread and first_nread[0] <= 1:
                         # (line 0 is no line: a reader that takes the whole file from the handle, like the JSON one, never advanced
                         #  the cursor, and the law below is about cursors that did)
                         stack_len = [len(lits[-1].stack)]
@@ -122,6 +133,7 @@ def load_exec(task):
         signal.setitimer(signal.ITIMER_PROF, 0)
         signal.alarm(0)
         _U.LineIterator.__enter__ = _enter0
+        _U.LineIterator.__next__ = _next0
         shutil.rmtree(tmp, ignore_errors=True)
     events = list(tr.events)
     if not many and out == "return":
